@@ -164,6 +164,10 @@ func c13Gen(tier string, emit func(c13Case)) {
 		for n := 0; n <= 70; n++ {
 			emit(c13Case{Kind: "count", Via: via, N: n})
 		}
+		// far beyond the limit, around every power of two a narrower counter could wrap at
+		for _, n := range []int{100, 126, 127, 128, 129, 130, 190, 191, 192, 193, 254, 255, 256, 257, 258, 300, 318, 319, 320, 383, 384, 385, 511, 512, 513, 600, 1000} {
+			emit(c13Case{Kind: "count", Via: via, N: n})
+		}
 	}
 	for g := 1; g <= 66; g += 5 {
 		for k := 0; k <= 66; k++ {
@@ -192,6 +196,11 @@ func c13Gen(tier string, emit func(c13Case)) {
 	for _, it := range c13Structured() {
 		for _, o := range []int{0, 31, 8, 23, 8 | 32, 31 | 64} {
 			emit(c13Case{Kind: "pattern", Pattern: it.pat, Reject: it.reject, Paths: it.paths, Opts: o})
+		}
+		// the same pattern as the prefix of a group / controller whose only route has a plain path
+		if it.reject {
+			emit(c13Case{Kind: "pattern", Pattern: it.pat, Reject: true, Paths: it.paths, Via: "group-prefix"})
+			emit(c13Case{Kind: "pattern", Pattern: it.pat, Reject: true, Paths: it.paths, Via: "controller-prefix", Opts: 31})
 		}
 	}
 	// raw token product, sharded on the first two tokens
@@ -485,10 +494,20 @@ func c13Run(c c13Case, st *fw.Stats) []fw.Viol {
 		var r *rux.Router
 		pv := try(func() {
 			r = rux.New(c13Options(c.Opts)...)
-			r.GET(c.Pattern, c13Noop)
-			r.POST(c.Pattern, c13Noop)
+			switch c.Via {
+			case "group-prefix":
+				r.Group(c.Pattern, func() { r.GET("/child", c13Noop) })
+			case "controller-prefix":
+				r.Controller(c.Pattern, &progCtl{hs: []rux.HandlerFunc{c13Noop, c13Noop, c13Noop}})
+			default:
+				r.GET(c.Pattern, c13Noop)
+				r.POST(c.Pattern, c13Noop)
+			}
 		})
 		what := fmt.Sprintf("route pattern %q (options mask %d)", c.Pattern, c.Opts)
+		if c.Via != "" {
+			what = fmt.Sprintf("pattern %q used as a %s (its route has a plain path of its own; options mask %d)", c.Pattern, c.Via, c.Opts)
+		}
 		if c.Reject {
 			st.Nontrivial++
 			if pv == nil {
@@ -612,7 +631,7 @@ func c13Run(c c13Case, st *fw.Stats) []fw.Viol {
 var c13Spec = fw.Spec[c13Case]{
 	ID:    "C13",
 	Level: "model_checking",
-	Rule: "complete enumeration per category: (rejection) all method-name strings of <=4 letters over {G,E,T,D,L,P,U,S,H,A,space,comma} plus every prefix/suffix/case/concatenation variant of the 9 names, as single and mixed lists; handler counts 0..70 through Route.Use, variadic middleware, group middleware and mixed; nil handler; options after routes; 13 accepted method sets (one name, several, Any, all but each one) on 4 route shapes x 32 option masks looked up with 22 method strings x 8 paths; structured variable regexes with a capturing group at every position (and escaped / non-capturing controls), optional parts not at the end, uncompilable regexes; " +
+	Rule: "complete enumeration per category: (rejection) all method-name strings of <=4 letters over {G,E,T,D,L,P,U,S,H,A,space,comma} plus every prefix/suffix/case/concatenation variant of the 9 names, as single and mixed lists; handler counts 0..70 (and 27 counts up to 1000 around powers of two) through Route.Use, variadic middleware, group middleware and mixed; nil handler; options after routes; 13 accepted method sets (one name, several, Any, all but each one) on 4 route shapes x 32 option masks looked up with 22 method strings x 8 paths; structured variable regexes with a capturing group at every position (and escaped / non-capturing controls), optional parts not at the end, uncompilable regexes - each also as the prefix of a group / controller whose route has a plain path; " +
 		"(totality) ALL pattern strings of <=5 (thorough 6) tokens over 15 tokens: every one registration accepts is matched against 156 short paths + 16 special paths x 7 method strings through Match and ServeHTTP, on a default router and with all options on; non-trivial = an invalid-by-construction definition, or an accepted dynamic raw pattern",
 	Assume: []string{"invalid definitions are built by injecting one listed fault into a valid definition; raw token strings are never classified, only checked for lookup totality"},
 	Bounds: func(tier string) map[string]any {
